@@ -45,6 +45,8 @@ ASSUMPTIONS = [
 
 REAL_BlockingDeque = BlockingDeque
 REAL_Timeout = gevent.Timeout
+REAL_SmtpReply = smtpclientmod.Reply
+from slimta.smtp import SmtpError
 
 
 # ====================================================================== virtual environment
@@ -142,14 +144,29 @@ class World(object):
                 world.on_popleft(item)
                 return item
 
+        class TReply(REAL_SmtpReply):
+            def recv(self, io):
+                try:
+                    r = super(TReply, self).recv(io)
+                except BaseException as e:
+                    world.on_reply_read(self, e)
+                    raise
+                world.on_reply_read(self, None)
+                return r
+
         self.VTimeout = VTimeout
         self.TResult = TResult
         self.TDeque = TDeque
+        self.TReply = TReply
+        self.reads = {}           # client -> [('read', msg, kind) | ('result', msg) | ('abort',)]
+        self.cur_env = {}         # client -> the envelope it polled last
 
     # ---- patching
     def __enter__(self):
         self._saved = (poolmod.Timeout, poolmod.AsyncResult, poolmod.BlockingDeque, rclientmod.Timeout,
                        smtpclientmod.wait_read)
+        self._saved_reply = smtpclientmod.Reply
+        smtpclientmod.Reply = self.TReply
         poolmod.Timeout = self.VTimeout
         poolmod.AsyncResult = self.TResult
         poolmod.BlockingDeque = self.TDeque
@@ -160,6 +177,7 @@ class World(object):
     def __exit__(self, *a):
         (poolmod.Timeout, poolmod.AsyncResult, poolmod.BlockingDeque, rclientmod.Timeout,
          smtpclientmod.wait_read) = self._saved
+        smtpclientmod.Reply = self._saved_reply
         for c in self.clients:
             if not c.dead:
                 c.kill(block=False)
@@ -213,11 +231,28 @@ class World(object):
     def on_popleft(self, item):
         c = self.cur()
         self.holding[c] = item
+        self.cur_env[c] = item[1].no
         self.note_poll(c, item)
         self.obs(('poll', c), c)
 
     def note_poll(self, c, item):
         pass
+
+    def on_reply_read(self, reply, exc):
+        """a reply was read (or could not be read) by the client running now"""
+        c = self.cur()
+        if c is None or getattr(reply, 'command', None) == b'QUIT':
+            return
+        tr = self.reads.setdefault(c, [])
+        m = self.cur_env.get(c, -1)
+        if exc is None:
+            code = reply.code or ''
+            kind = 1 if code == '421' else 2 if code[:1] == '4' else 3 if code[:1] == '5' else 0
+            tr.append(('read', m, kind))
+        elif isinstance(exc, SmtpError):
+            tr.append(('read', m, 4))
+        else:
+            tr.append(('abort',))     # timeout / socket error / kill: not the SmtpError arm
 
     def on_popleft_exc(self, e):
         c = self.cur()
@@ -242,6 +277,7 @@ class World(object):
             return
         res.env_no = held[1].no
         res.kind = self.result_kind(ok, value)
+        self.reads.setdefault(c, []).append(('result', held[1].no))
         self.holding[c] = None
         self.obs(('done', c, res.kind), c)
 
@@ -292,7 +328,7 @@ class World(object):
 poolmod_AsyncResult = poolmod.AsyncResult
 
 
-def make_env(no, eightbit=False, rcpts=None, sender=None, refuse=False):
+def make_env(no, eightbit=False, rcpts=None, sender=None, refuse=False, hdr=None):
     """envelope number `no`; the number is in the sender, in every recipient and in the X-Env header"""
     rcpts = rcpts or ['r%da', 'r%db']
     env = Envelope((sender or 's%d') % no + '@example.com', [(r % no) + '@example.com' for r in rcpts])
@@ -300,6 +336,8 @@ def make_env(no, eightbit=False, rcpts=None, sender=None, refuse=False):
     if eightbit:
         body += b'caf\xc3\xa9\r\n'
     extra = b'X-Refuse-Me: yes\r\n' if refuse else b''
+    if hdr:
+        extra += hdr.encode('ascii') + b': yes\r\n'
     env.parse(b'From: s%d@example.com\r\nX-Env: %d\r\n' % (no, no) + extra + b'\r\n' + body)
     env.no = no
     return env
@@ -852,6 +890,13 @@ class FakeConn(object):
 
     def sendall(self, data):
         self.world.activity += 1
+        if self.held is not None:
+            # the client writes again although the reply to its message data is still held back: it
+            # gave up waiting (timeout).  For this delivery the server was mute - and stays mute.
+            self.held = None
+            self.ms['body'] = 2
+            self.ms['flavour'] = 'silent'
+            self.silent = True
         self.inbuf += bytes(data)
         self.process()
 
@@ -892,6 +937,9 @@ class FakeConn(object):
             self.push(text * n)
         elif s == 3:              # the same rejection as a 4xx
             self.push((b'450 4.0.0' + text[text.index(b' '):]) * n)
+        elif s == 4:              # the server announces that it closes the channel, and does
+            self.push(b'421 4.3.2' + text[text.index(b' '):])
+            self.eof = True
         else:
             self.drop(flavour)
 
@@ -899,9 +947,12 @@ class FakeConn(object):
         if self.held is not None:
             h, self.held = self.held, None
             h()
+            self.process()        # the commands that arrived meanwhile
 
     def process(self):
         while True:
+            if self.held is not None:
+                return            # an in-order server: nothing is answered before the held reply
             if self.mode == 'data':
                 if self.inbuf.startswith(b'.\r\n'):
                     body, self.inbuf = b'', self.inbuf[3:]
@@ -927,9 +978,12 @@ class FakeConn(object):
                 nrep = self.accepted if self.lmtp else 1       # LMTP: one reply per accepted recipient
                 self.accepted = 0
 
-                def answer(ms=ms, nrep=nrep):
+                bno = no if not empty else self.env_no
+
+                def answer(ms=ms, nrep=nrep, bno=bno):
                     if nrep:
-                        self.reply_or_drop(ms['body'], b'550 scripted-reject body\r\n', ms['flavour'], b'250 2.0.0 queued\r\n', nrep)
+                        self.reply_or_drop(ms['body'], b'550 5.6.0 msg%d scripted-reject body\r\n' % bno, ms['flavour'],
+                                           b'250 2.0.0 msg%d queued\r\n' % bno, nrep)
                 if ms.get('hold'):
                     self.held = answer
                 else:
@@ -961,14 +1015,15 @@ class FakeConn(object):
                 if self.in_txn:
                     # like slimta's own Server or Postfix: no MAIL inside a transaction
                     self.world.nested_mail.append((self.owner, self.env_no))
-                    self.push(b'503 5.5.1 Bad sequence of commands (nested MAIL)\r\n')
+                    self.push(b'503 5.5.1 msg%d Bad sequence of commands (nested MAIL)\r\n' % self.env_no)
                     continue
                 self.ms = self.world.cur_ms.get(self.owner) or OK_MS
                 self.rcpt_i = 0
                 self.accepted = 0
                 if self.ms['mail'] == 0:
                     self.in_txn = True
-                self.reply_or_drop(self.ms['mail'], b'550 scripted-reject mail\r\n', self.ms['flavour'], b'250 ok\r\n')
+                self.reply_or_drop(self.ms['mail'], b'550 5.1.0 msg%d scripted-reject mail\r\n' % self.env_no, self.ms['flavour'],
+                                   b'250 2.1.0 msg%d sender ok\r\n' % self.env_no)
             elif up.startswith(b'RCPT TO:'):
                 self.log_cmd(up, line)
                 rc = self.ms['rcpts']
@@ -976,13 +1031,16 @@ class FakeConn(object):
                 self.rcpt_i += 1
                 if s == 0:
                     self.accepted += 1
-                self.reply_or_drop(s, b'550 scripted-reject rcpt\r\n', self.ms['flavour'], b'250 ok\r\n')
+                addr = line[line.index(b'<'):line.index(b'>') + 1] if b'<' in line and b'>' in line else b'<?>'
+                self.reply_or_drop(s, b'550 5.1.1 ' + addr + b' msg%d scripted-reject rcpt\r\n' % self.env_no, self.ms['flavour'],
+                                   b'250 2.1.5 ' + addr + b' msg%d ok\r\n' % self.env_no)
             elif up == b'DATA':
                 self.log_cmd(up, line)
                 s = self.ms['data']
                 if s == 0:
                     self.mode = 'data'
-                self.reply_or_drop(s, b'554 scripted-reject data\r\n', self.ms['flavour'], b'354 go ahead\r\n')
+                self.reply_or_drop(s, b'554 5.5.0 msg%d scripted-reject data\r\n' % self.env_no, self.ms['flavour'],
+                                   b'354 msg%d go ahead\r\n' % self.env_no)
             elif up == b'RSET':
                 self.log_cmd(up, line)
                 ms = self.world.cur_ms.get(self.owner) or OK_MS
@@ -1340,12 +1398,13 @@ def run_smtp_case(cfg, script, rng=None, nsteps=0):
             e2 = py_reset_after_failure(log)
             if e2:
                 fails.append(('c19:reused-connection-not-reset-after-failed-transaction', 'client %d: %s; wire %r' % (c, e2, log)))
+        own_replies_oracle(w.outcomes, fails, 'scripted server')
         for c, no in w.nested_mail:
             fails.append(('c19:reused-connection-not-reset-after-failed-transaction',
                           'client %r: the server received MAIL for envelope %r inside the transaction of an earlier message (answered 503); wire %r' % (c, no, w.wirelog.get(c))))
         fails.extend(w.problems)
         res = dict(script=out_script, raw=list(w.raw), fails=fails, nenv=w.nenv, max_pool=w.max_pool,
-                   outcomes=dict(w.outcomes),
+                   outcomes=dict(w.outcomes), reads={c: list(v) for c, v in w.reads.items()},
                    polls={c: list(v) for c, v in w.polls.items()}, wirelog={c: list(v) for c, v in w.wirelog.items()},
                    nclients=len(w.clients), finished=set(w.finished),
                    conn_used=[w.conn_effective.get(c) or w.conn_script(c) for c in range(len(w.clients))], max_open=w.max_open)
@@ -1386,6 +1445,8 @@ def judge_smtp(ctx, runs):
     sinputs = []
     sidx = []
     for i, r in enumerate(runs):
+        if r['cfg'].get('lmtp') or r['cfg'].get('no_model'):
+            continue        # the Coq wire model is the SMTP client; these runs are judged by the oracles only
         for c in range(r['nclients']):
             cs = r['conn_used'][c]
             polls = [[] if p is None else [p[0], p[1], enc_ms(p[2])] for p in r['polls'].get(c, [])]
@@ -1416,8 +1477,6 @@ def judge_smtp(ctx, runs):
     ACT = {'enterpoll': 0, 'poll': 1, 'idle': 2, 'done': 3, 'requeue': 4, 'giveup': 5}
     for (i, c), so in zip(sidx, souts):
         r = runs[i]
-        if r['cfg'].get('lmtp') or r['cfg'].get('no_model'):
-            continue        # the Coq model is the SMTP client; these runs are judged by the oracles only
         case = dict(kind='smtp', cfg=r['cfg'], script=r['script'], client=c)
         m_wire, m_acts, m_exited, m_oaat, m_raf, m_contract = so
         real_wire = tuple(tuple(w) for w in r['wirelog'].get(c, []) if w[0] != W['handshake'])
@@ -1434,6 +1493,8 @@ def judge_smtp(ctx, runs):
         if not (m_oaat and m_raf and m_contract):
             ctx.mismatch('smtp-model-checker-false', case, None, (m_oaat, m_raf, m_contract))
     ctx.extra['traces_validated_against_impl'] = ctx.extra.get('traces_validated_against_impl', 0) + len(runs)
+    if not any(r['cfg'].get('history') for r in runs):
+        judge_reads(ctx, [(r, dict(kind='smtp', cfg=r['cfg'], script=r['script'])) for r in runs], 'smtp')
 
 
 # ====================================================================== 3b. connection re-use after every kind of failed transaction
@@ -1528,7 +1589,7 @@ def metamorphic(r, kinds, solo, fails, what):
         got = canon_outcome(r['outcomes'].get(i))
         want = solo(i, k)
         if got != want:
-            key = KEY_RESET if failed_before else 'c19:result-differs-from-fresh-connection'
+            key = KEY_RESET if (failed_before and '503' in repr(got)) else 'c19:result-differs-from-fresh-connection'
             fails.append((key, '%s: message %d (%s) after %r: result %r, on a fresh connection %r' % (what, i, k, kinds[:i], got, want)))
         if k != 'ok':
             failed_before = True
@@ -1604,8 +1665,8 @@ class DuplexEnd(object):
         if self.on_send:
             self.on_send(data)
         p = self.peer
-        if p.closed:
-            raise socket.error(errno.EPIPE, 'peer closed')
+        if p.closed or self.closed:
+            raise socket.error(errno.EPIPE, 'closed')
         p.buf.append(data)
         if p.waiter is not None and not p.waiter.ready():
             p.waiter.set(None)
@@ -1662,6 +1723,7 @@ class RealServerWorld(SmtpWorld):
 
     def create_conn(self, address):
         from slimta.smtp.server import Server
+        from slimta.smtp import ConnectionLost
         c = self.cur()
         log = self.wirelog.setdefault(c, [])
         log.append((W['connect'],))
@@ -1685,22 +1747,28 @@ class RealServerWorld(SmtpWorld):
 
         class Handlers(object):
             def MAIL(self, reply, address, params):
+                if address.startswith('hangmail'):
+                    hang()
                 if address.startswith('badsender'):
-                    reply.code, reply.message = '550', '5.7.1 scripted-reject sender'
+                    reply.code, reply.message = '550', '5.7.1 <%s> msg%d scripted-reject sender' % (address, addr_no(address))
                 else:
                     state['sender'], state['rcpts'] = address, []
 
             def RCPT(self, reply, address, params):
+                if address.startswith('hang'):
+                    hang()
                 if address.startswith('busy'):
-                    reply.code, reply.message = '450', '4.2.1 scripted-reject mailbox busy'
+                    reply.code, reply.message = '450', '4.2.1 <%s> msg%d scripted-reject mailbox busy' % (address, addr_no(address))
                 elif address.startswith('nobody'):
-                    reply.code, reply.message = '550', '5.1.1 scripted-reject no such user'
+                    reply.code, reply.message = '550', '5.1.1 <%s> msg%d scripted-reject no such user' % (address, addr_no(address))
                 else:
                     state['rcpts'].append(address)
 
             def DATA(self, reply):
+                if (state['sender'] or '').startswith('hangdata'):
+                    hang()
                 if (state['sender'] or '').startswith('nodata'):
-                    reply.code, reply.message = '554', '5.7.1 scripted-reject data'
+                    reply.code, reply.message = '554', '5.7.1 msg%d scripted-reject data' % addr_no(state['sender'])
 
             def HAVE_DATA(self, reply, data, err):
                 data = data or b''
@@ -1708,10 +1776,15 @@ class RealServerWorld(SmtpWorld):
                 for line in data.split(b'\r\n'):
                     if line.lower().startswith(b'x-env:'):
                         no = int(line.split(b':')[1])
-                if b'X-Refuse-Me' in data:
-                    reply.code, reply.message = '554', '5.6.0 scripted-reject content'
+                if b'X-Hangup' in data:
+                    log.append((W['body'], no))
+                    hang()
+                if b'X-Refuse-Me' in data or b'X-Defer-Me' in data:
+                    reply.code, reply.message = ('554', '5.6.0 msg%d scripted-reject content' % no) if b'X-Refuse-Me' in data \
+                        else ('451', '4.7.1 msg%d scripted-reject greylisted' % no)
                     log.append((W['body'], no))
                     return
+                reply.message = '2.6.0 msg%d accepted' % no
                 if not data:
                     log.append((W['empty'], state.get('cur', -1)))
                 else:
@@ -1720,6 +1793,11 @@ class RealServerWorld(SmtpWorld):
 
             def RSET(self, reply):
                 state['sender'], state['rcpts'] = None, []
+
+        def hang():
+            # the next hop goes away cleanly (FIN) in the middle of the exchange
+            srv.close()
+            raise ConnectionLost()
 
         fd = 2000 + len(self.ends)
         cli = DuplexEnd(self, fd, on_send)
@@ -1792,8 +1870,10 @@ def run_real_sequence(kinds, pipe, first_env=0):
             e2 = py_reset_after_failure(log)
             if e2:
                 fails.append((KEY_RESET, 'real server, client %d: %s; wire %r' % (c, e2, log)))
+        own_replies_oracle(w.outcomes, fails, 'real Server')
         fails.extend(w.problems)
         return dict(outcomes=dict(w.outcomes), accepted=list(w.accepted), fails=fails, raw=list(w.raw),
+                    reads={c: list(v) for c, v in w.reads.items()},
                     wirelog={c: list(v) for c, v in w.wirelog.items()}, nclients=len(w.clients))
 
 
@@ -1838,6 +1918,176 @@ def realserver_stream(ctx):
     for (r, case), mo in zip(runs, mouts):
         validate_trace(ctx, 'realserver-pool-trace', case, None, r['raw'], mo)
     ctx.extra['traces_validated_against_impl'] = ctx.extra.get('traces_validated_against_impl', 0) + len(runs)
+
+
+# ====================================================================== 3c. whose reply is inside a result
+KEY_FOREIGN = 'c19:result-carries-another-messages-reply'
+SYNTHETIC = re.compile(r'^(4\.3\.0 |4\.4\.2 Connection timed out|4\.3\.0 Connection failed|5\.6\.3 Conversion not allowed|'
+                       r'5\.6\.7 Address requires SMTPUTF8)')
+
+
+def replies_of(oc):
+    """every Reply inside an attempt's outcome: per recipient and whole-message"""
+    out = []
+    vals = list(oc[1].values()) if (oc[0] == 'ok' and isinstance(oc[1], dict)) else [oc[1]]
+    for v in vals:
+        rep = getattr(v, 'reply', None) if isinstance(v, Exception) else v
+        if rep is not None and hasattr(rep, 'code'):
+            out.append(rep)
+    return out
+
+
+def reply_tags(rep):
+    text = rep.message or ''
+    tags = set(int(x) for x in re.findall(r'msg(\d+)', text))
+    for a in re.findall(r'<([^>]*)>', text):
+        if addr_no(a) >= 0:
+            tags.add(addr_no(a))
+    return tags
+
+
+def own_replies_oracle(outcomes, fails, where):
+    """content-aware: a result only carries replies the next hop issued for THIS message's own
+    commands (every scripted reply names its message / recipient), or one of the client's own"""
+    for no, oc in sorted(outcomes.items()):
+        for rep in replies_of(oc):
+            foreign = sorted(t for t in reply_tags(rep) if t != no)
+            if foreign:
+                fails.append((KEY_FOREIGN, '%s: the result of attempt(envelope %d) carries the reply %s %r, which the next hop issued for message %r'
+                              % (where, no, rep.code, rep.message, foreign)))
+
+
+def read_trace_inputs(reads):
+    """per client: the reads up to the first failed read / abort, as input of c19_reads"""
+    tr = []
+    for ev in reads:
+        if ev[0] == 'abort':
+            break
+        if ev[0] == 'read':
+            tr.append([max(ev[1], 0), ev[2]])
+            if ev[2] == 4:
+                break
+    return tr
+
+
+def judge_reads(ctx, runs, label):
+    """the replies read on each connection -> model of Client.last_error/_get_error_reply: the trace
+    must satisfy the theorem's hypotheses and the reply inside a lost-connection result must come
+    from where the model says"""
+    inputs, idx = [], []
+    for i, (r, case) in enumerate(runs):
+        for c, reads in sorted(r['reads'].items()):
+            tr = read_trace_inputs(reads)
+            if tr:
+                inputs.append(tr); idx.append((i, c))
+    outs = ctx.model.batch('c19_reads', inputs)
+    for (i, c), tr, mo in zip(idx, inputs, outs):
+        r, case = runs[i]
+        wf, srcs = mo
+        ctx.count(label + '-read-traces')
+        case2 = dict(case, client=c)
+        if not wf:
+            ctx.mismatch(label + ':read-trace-outside-the-hypotheses', case2, tr, 'wf_reads = false')
+            continue
+        if not srcs:
+            continue
+        m, src = srcs[-1]
+        ctx.count(label + '-lost-reads')
+        reads = r['reads'][c]
+        k = max(j for j, ev in enumerate(reads) if ev[0] == 'read' and ev[2] == 4)
+        if any(ev[0] == 'result' and ev[1] == m for ev in reads[:k]):
+            continue                      # the request was completed before the connection broke
+        oc = r['outcomes'].get(m)
+        if oc is None or oc[0] != 'exc' or getattr(oc[1], 'reply', None) is None:
+            continue                      # put back / not completed by the SmtpError arm
+        rep = oc[1].reply
+        real = sorted(reply_tags(rep))
+        model = list(src)
+        if real != model and not (model == [] and real == [m] and rep.code != '421'):
+            ctx.mismatch(label + ':lost-result-reply-source', case2, dict(message=m, reply=[rep.code, rep.message], from_messages=real), dict(from_messages=model))
+        if src:
+            ctx.count(label + '-lost-result-passes-on-own-421')
+
+
+# A: what is left behind on the connection; B: the next hop goes away at each stage; C: a good message
+CLOSE_A = collections.OrderedDict([
+    ('ok', _ms()),
+    ('one-recipient-deferred', _ms(rcpts=[3, 0])),
+    ('one-recipient-rejected', _ms(rcpts=[0, 1])),
+    ('deferred-after-data', _ms(body=3)),
+    ('all-rejected', _ms(rcpts=[1, 3], data=1)),
+])
+CLOSE_B = collections.OrderedDict([
+    ('closed-before-mail', _ms(pre=1)),
+    ('closed-at-mail', _ms(mail=2)),
+    ('closed-at-first-rcpt', _ms(rcpts=[2, 0])),
+    ('closed-at-second-rcpt', _ms(rcpts=[0, 2])),
+    ('closed-at-data', _ms(data=2)),
+    ('closed-after-content', _ms(body=2)),
+    ('421-at-rcpt', _ms(rcpts=[0, 4])),
+    ('421-at-mail', _ms(mail=4)),
+    ('421-after-content', _ms(body=4)),
+])
+
+
+def closing_stream(ctx):
+    runs = []
+    for lmtp in (0, 1):
+        for pipe in (0, 1):
+            for an, a in CLOSE_A.items():
+                for bn, b in CLOSE_B.items():
+                    cs = dict(connect=1, handshake=0, hs_stage='ehlo', flavour='close', pipe=pipe, eightbit=1, hold=0)
+                    cfg = dict(size=1, idle=7, nattempts=3, conn_scripts=[cs], lmtp=lmtp, first_env=0, no_model=True,
+                               env_scripts={'0': [dict(a)], '1': [dict(b)], '2': [dict(OK_MS)]}, env_8bit={}, env_spec={},
+                               history=[an, bn, 'ok'])
+                    r = run_smtp_case(cfg, [[['A']], [['A']], [['A']]])
+                    r['cfg'] = cfg
+                    # B alone on a fresh connection to the same script gives the same result
+                    solo = run_smtp_case(dict(cfg, first_env=1, nattempts=1), [[['A']]])
+                    if canon_outcome(r['outcomes'].get(1)) != canon_outcome(solo['outcomes'].get(1)):
+                        r['fails'].append((KEY_FOREIGN if canon_outcome(r['outcomes'].get(1))[:1] == ('exc',) else 'c19:result-differs-from-fresh-connection',
+                                           'message 1 (%s) after %s: result %r, alone on a fresh connection %r' % (
+                                               bn, an, canon_outcome(r['outcomes'].get(1)), canon_outcome(solo['outcomes'].get(1)))))
+                    ctx.count('closing-history-A:' + an)
+                    ctx.count('closing-history-B:' + bn)
+                    runs.append(r)
+    judge_smtp(ctx, runs)
+    judge_reads(ctx, [(r, dict(kind='smtp', cfg=r['cfg'], script=r['script'])) for r in runs], 'closing')
+
+
+REAL_CLOSE_A = collections.OrderedDict([
+    ('ok', {}),
+    ('one-recipient-deferred', dict(rcpts=['busy%da', 'r%db'])),
+    ('one-recipient-rejected', dict(rcpts=['r%da', 'nobody%db'])),
+    ('deferred-after-data', dict(hdr='X-Defer-Me')),
+    ('all-rejected', dict(rcpts=['nobody%da', 'busy%db'])),
+])
+REAL_CLOSE_B = collections.OrderedDict([
+    ('closed-at-mail', dict(sender='hangmail%d')),
+    ('closed-at-first-rcpt', dict(rcpts=['hang%da', 'r%db'])),
+    ('closed-at-second-rcpt', dict(rcpts=['r%da', 'hang%db'])),
+    ('closed-at-data', dict(sender='hangdata%d')),
+    ('closed-after-content', dict(hdr='X-Hangup')),
+])
+REAL_KINDS.update(('A:' + k, v) for k, v in REAL_CLOSE_A.items())
+REAL_KINDS.update(('B:' + k, v) for k, v in REAL_CLOSE_B.items())
+
+
+def real_closing_stream(ctx):
+    runs = []
+    for pipe in (0, 1):
+        for an in REAL_CLOSE_A:
+            for bn in REAL_CLOSE_B:
+                kinds = ['A:' + an, 'B:' + bn, 'ok']
+                r = run_real_sequence(kinds, pipe)
+                case = dict(kind='realserver', kinds=kinds, pipe=pipe)
+                metamorphic(r, kinds, lambda i, k: real_solo(k, pipe, i)[0], r['fails'], 'real Server pipelining=%d' % pipe)
+                ctx.evaluated(('realserver-closing', tuple(kinds), pipe), nontrivial=True)
+                ctx.count('realserver-closing-histories')
+                for key, what in r['fails']:
+                    ctx.fail(key, case, what)
+                runs.append((r, case))
+    judge_reads(ctx, runs, 'realserver-closing')
 
 
 # ====================================================================== 4. HttpRelay: real HttpRelayClient + real http.client over a fake socket
@@ -2355,6 +2605,8 @@ def run(ctx):
     smtp_stream(ctx, 300 if q else 5000, 10 if q else 14)
     pairs_stream(ctx)
     realserver_stream(ctx)
+    closing_stream(ctx)
+    real_closing_stream(ctx)
     http_stream(ctx, 150 if q else 2500)
     tot_s = tot_t = 0
     allx = True
@@ -2377,6 +2629,7 @@ def run(ctx):
         'server (per message: unsolicited 421, MAIL/RCPT/DATA/body reply ok|reject|lost, RSET survives or not, held replies/connects, PIPELINING on/off, '
         '8BITMIME on/off). http: HttpRelay + HttpRelayClient + the real http.client connection over a fake socket against a scripted server (per message ok | reject | refused | mute | hangs up | slow, released in time or not), fixed stall-then-healthy scenarios plus random schedules; every attempt must get the result of its own envelope and a healthy delivery must succeed. Every observed step of the real pool is replayed on the model (must be enabled; pool members, idle flags, queue, semaphore equal); '
         'gated schedules are also predicted by the model\'s FIFO run; each SMTP / HTTP connection\'s log and pool actions are compared with smtp_run / http_run. '
+        'reuse streams: sequences A;B(;C) through one re-used connection, A over every failure kind, B also with the next hop hanging up / saying 421 at every stage, SMTP and LMTP on the scripted server and SMTP against the real slimta Server; judged model-free (result = result on a fresh connection; RSET between a failed transaction and the next MAIL; every reply inside a result was issued for that message) and, for the replies read per connection, against the last_error model. '
         'non-trivial = at least two attempts and at least four kinds of action (pool) / a failed, reset or requeued transaction (smtp).')
     ctx.extra['trusted_base'] = [
         'gevent semantics assumed by the model: atomicity between blocking calls, Semaphore wakes waiters FIFO and only while its counter is positive, link callbacks after the greenlet ends',
